@@ -300,3 +300,54 @@ Definition ascii_only (c : Z) : bool := false.
 Fixpoint failing_from29 (k : nat) (l : list bool) : list nat :=
   match l with [] => [] | b :: l' => (if b then [] else [k]) ++ failing_from29 (S k) l' end.
 Definition failing29 (l : list bool) : list nat := failing_from29 0 l.
+
+(* ------------------------------------------------------------------ e.j[path] == constant  (SQLiteBuilder.JSON_VALUE: CAST(json_extract(..) AS integer / text))
+   json_extract gives SQL NULL for null, 1 / 0 for true / false, the number for numbers, the bare string for strings, JSON text for containers;
+   SQLite's CAST(text AS INTEGER) reads the longest numeric prefix (0 if there is none), CAST(real AS INTEGER) truncates. *)
+Inductive sqlv := QNull | QInt (z : Z) | QReal (neg : bool) (ip : Z) (fp : str) | QText (s : str).
+
+Definition json_extract_value (v : jv) : sqlv :=
+  match v with
+  | JNull => QNull
+  | JBool b => QInt (if b then 1 else 0)
+  | JInt z => QInt z
+  | JFloat neg ip fp => QReal neg ip fp
+  | JStr s => QText s
+  | JList _ | JDict _ => QText (jtext v)
+  end.
+
+Definition int_prefix (s : str) : Z :=
+  let '(neg, r) := match s with c :: r' => if c =? c_minus then (true, r') else if c =? 43 then (false, r') else (false, s) | [] => (false, s) end in
+  let '(ds, _) := span is_digit r in
+  if neg then - horner ds else horner ds.
+
+Definition cast_int (q : sqlv) : option Z :=
+  match q with
+  | QNull => None
+  | QInt z => Some z
+  | QReal neg ip _ => Some (if neg then - ip else ip)
+  | QText s => Some (int_prefix s)
+  end.
+
+Definition cast_text (q : sqlv) : option str :=
+  match q with
+  | QNull => None
+  | QInt z => Some (fmt_d z)
+  | QReal neg ip fp => Some ((if neg then [c_minus] else []) ++ digits ip ++ c_dot :: fp)
+  | QText s => Some s
+  end.
+
+Definition json_eq_int (v : jv) (c : Z) : bool :=
+  match cast_int (json_extract_value v) with Some z => z =? c | None => false end.
+Definition json_eq_str (v : jv) (s : str) : bool :=
+  match cast_text (json_extract_value v) with Some t => str_eqb t s | None => false end.
+
+(* Python  value == c  for an int constant, value == s for a str constant *)
+Definition py_eq_int (v : jv) (c : Z) : bool :=
+  match v with
+  | JInt z => z =? c
+  | JBool b => (if b then 1 else 0) =? c
+  | JFloat neg ip fp => forallb (fun d => d =? 48) fp && ((if neg then - ip else ip) =? c)
+  | _ => false
+  end.
+Definition py_eq_str (v : jv) (s : str) : bool := match v with JStr t => str_eqb t s | _ => false end.
